@@ -5077,6 +5077,47 @@ def c10(ctx):
                 if probs or code != 0:
                     ctx.violation(f"changes guarded by package {' / '.join(guards)}: " + "; ".join(probs[:4]) + f" (exit {code})",
                                   {"input": {"files": pfiles, "guards": guards, "flags": mode, "arguments": targs}, "stderr": err.decode("utf-8", "replace")[-500:]})
+    # ... and by that file's own imports: one change guarded by several imports over several files in one run; whether a file
+    # is rewritten depends on its own import list, not on which files came before it or which of its guards they failed
+    alpha, beta, gamma = "example.com/alpha", "example.com/beta", "example.com/gamma"
+    ifiles = {}
+    for nm, imps in (("a_first", [alpha]), ("b_second", [alpha]), ("c_both", [alpha, beta]), ("d_beta", [beta]), ("e_none", []),
+                     ("f_all", [alpha, beta, gamma]), ("g_alpha", [alpha]), ("h_both", [beta, alpha]), ("i_ag", [alpha, gamma])):
+        blk = "" if not imps else ("import \"" + imps[0] + "\"\n\n" if len(imps) == 1 else
+                                   "import (\n" + "".join(f'\t"{i}"\n' for i in imps) + ")\n\n")
+        uses = "".join(f"\t{i.rsplit('/', 1)[1]}.Use()\n" for i in imps)
+        ifiles[f"src/{nm}.go"] = (f"package demo\n\n{blk}func {nm}() {{\n\toldName({len(ifiles) + 1})\n{uses}}}\n", imps)
+    for guards in ([alpha, beta], [beta, alpha], [alpha, beta, gamma], [gamma, alpha], [alpha], [beta, gamma]):
+        gpatch = "@@\nvar x expression\n@@\n" + "".join(f' import "{g_}"\n' for g_ in guards) + "\n-oldName(x)\n+newName(x)\n"
+        for mode in ([], ["--print-only"], ["--diff"]):
+            for targs in (["./src"], ["./..."], sorted(ifiles), sorted(ifiles, reverse=True)):
+                root = ctx.scratch("c10imp")
+                tree = {rel: src for rel, (src, _) in ifiles.items()}
+                tree["g.patch"] = gpatch
+                cl.write_tree(root, tree)
+                code, out, err = cl.gopatch(ctx.gopatch, root, ["-p", "g.patch"] + mode + targs)
+                so = out.decode("utf-8", "replace")
+                ctx.evaluations += 1
+                ctx.count("per_file_import_guards")
+                ctx.nontrivial.add("impguard:" + ",".join(guards) + "|" + " ".join(mode) + "|" + " ".join(targs))
+                probs = []
+                for rel, (src, imps) in ifiles.items():
+                    want = all(g_ in imps for g_ in guards)
+                    if not mode:
+                        got = open(os.path.join(root, rel)).read() != src
+                    elif mode == ["--diff"]:
+                        got = ("--- " + rel + "\n") in so
+                    else:
+                        n_ = re.search(r"oldName\((\d+)\)", src).group(1)
+                        got = ("newName(" + n_ + ")") in so
+                    if got != want:
+                        probs.append(f"{rel} (imports {[i.rsplit('/', 1)[1] for i in imps]}) was {'rewritten' if got else 'left alone'}")
+                shutil.rmtree(root, ignore_errors=True)
+                if probs or code != 0:
+                    ctx.violation(f"a change guarded by the imports {' and '.join(g_.rsplit('/', 1)[1] for g_ in guards)} over several files in one run: "
+                                  + "; ".join(probs[:4]) + f" (exit {code})",
+                                  {"input": {"files": {rel: src for rel, (src, _) in ifiles.items()}, "patch": gpatch, "flags": mode, "arguments": targs},
+                                   "stderr": err.decode("utf-8", "replace")[-500:]})
     # duplicate import paths: the known divergence (F8) and the generated stream
     dup = {"id": "f8", "patches": ["@@\nvar x expression\n@@\n import bar \"example.com/pkg\"\n\n-foo(x)\n+bar.Foo(x)\n"],
            "src": "package a\n\nimport (\n\t\"example.com/pkg\"\n\tbar \"example.com/pkg\"\n)\n\nfunc f() { foo(1); pkg.X(); bar.Y() }\n"}
